@@ -165,18 +165,19 @@ Definition quantile_ok_b (eqv : Q -> Q -> bool) (counts : list nat) (scores : li
 
 (* ============================ time-bounded popularity ============================ *)
 
-(* how the interaction log stores time: integer seconds, or date-time typed (nanoseconds) *)
-Inductive trep := TInt | TDate.
-(* one log row: (item number, raw stored time: seconds for TInt, nanoseconds for TDate) *)
-Definition logrow : Type := (nat * Z)%type.
+(* how the interaction log stores time: as a number of seconds (integer or float column), or date-time
+   typed with some resolution (ticks per second: 1, 10^3, 10^6, 10^9 for datetime64[s/ms/us/ns]; a time
+   zone attached to the column does not change the instants) *)
+Inductive trep := TNum | TDate (ticks_per_s : Q).
+(* one log row: (item number, raw stored time: seconds for TNum, ticks for TDate) *)
+Definition logrow : Type := (nat * Q)%type.
 
-Definition ns_per_s : Q := 1000000000.
 (* log["timestamp"] > start: numbers are compared with cutoff.timestamp(); date-time values with
-   pd.Timestamp(cutoff.timestamp(), unit="s") (the repaired branch) *)
-Definition after_cutoff (rep : trep) (cutoff : Q) (t : Z) : bool :=
+   pd.Timestamp(cutoff.timestamp(), unit="s", tz=...) -- pandas compares instants exactly across resolutions *)
+Definition after_cutoff (rep : trep) (cutoff : Q) (t : Q) : bool :=
   match rep with
-  | TInt => Qltb cutoff (inject_Z t)
-  | TDate => Qltb (cutoff * ns_per_s) (inject_Z t)
+  | TNum => Qltb cutoff t
+  | TDate r => Qltb (cutoff * r) t
   end.
 
 (* item_ids[mask].value_counts().reindex(items, fill_value=0) *)
